@@ -15,7 +15,7 @@ front of LEAN_PATH), so neither /repo nor /verif/lean is touched and nothing has
   (v)   semantics of the translation itself: tests/sample/sample.rs (a synthetic file using every
         construct of the supported subset) is translated, and ALSO compiled by rustc and run in a
         dev-like and a release-like profile; every observed outcome (value / error / panic,
-        ~1500 calls) must be reproduced by kernel evaluation of the translation (`decide`).
+        ~1700 calls) must be reproduced by kernel evaluation of the translation (`decide`).
 
 Exit status 0 iff every expectation holds.
 """
@@ -40,7 +40,9 @@ FILES = {
 GROUPS = {
     "FnBitMask": "CamVerif/Proofs/C02GenTie.lean",
     "FnAccessRight": "CamVerif/Proofs/C20GenTie.lean",
-    "FnCmd": "CamVerif/Proofs/C10GenTie.lean",
+    # several tie files: each one is checked against the regenerated module (the later ones import
+    # the earlier ones' olean from the built library; they only use its error coding and closed forms)
+    "FnCmd": ["CamVerif/Proofs/C10GenTie.lean", "CamVerif/Proofs/C10GenTie2.lean", "CamVerif/Proofs/C09GenTie.lean"],
 }
 
 
@@ -145,9 +147,13 @@ def generate_and_prove(repo, group, lp):
     rc2, out2 = sh(["lean", "-o", os.path.join(gen_dir, group + ".olean"), src], cwd=overlay, env=env)
     if rc2 != 0:
         return rc, out, rc2, ["(generated module does not elaborate) " + out2[:400]], time.time() - t0
-    tie = GROUPS[group]
-    rc3, out3 = sh(["lean", tie], cwd=LEAN, env=env)
-    return rc, out, rc3, theorems_failing(tie, out3), time.time() - t0
+    ties = GROUPS[group] if isinstance(GROUPS[group], list) else [GROUPS[group]]
+    rc3, failing = 0, []
+    for tie in ties:
+        r, out3 = sh(["lean", tie], cwd=LEAN, env=env)
+        rc3 = rc3 or r
+        failing += theorems_failing(tie, out3)
+    return rc, out, rc3, failing, time.time() - t0
 
 
 def main():
@@ -198,6 +204,26 @@ def main():
         ("refuse a helper whose body is outside the subset (at the construct)", "cmd", "FnCmd", "fn into_scd_len(len: usize) -> Result<u16> {",
          "fn slow(n: usize) -> usize {\n    let mut k = 0;\n    while k < n {\n        k += 1;\n    }\n    k\n}\n\nfn into_scd_len(len: usize) -> Result<u16> {\n    let len = slow(len);",
          r"cmd\.rs:(\d+): pattern `mut k`"),
+        ("refuse an assignment to `self` before a join point (not in the tail flow)", "cmd", "FnCmd",
+         "        if self.read_length as usize > self.maximum_read_length {\n            let next_item = ReadMem::new(self.address, self.maximum_read_length as u16);",
+         "        if self.read_length > 4096 {\n            self.read_length = 4096;\n        }\n        if self.read_length as usize > self.maximum_read_length {\n            let next_item = ReadMem::new(self.address, self.maximum_read_length as u16);",
+         r"cmd\.rs:(\d+): .*outside the tail flow"),
+        ("refuse an assignment nested in an operand", "cmd", "FnCmd",
+         "            let next_item = ReadMem::new(self.address, self.read_length);\n            self.read_length = 0;",
+         "            let next_item = ReadMem::new(self.address, {\n                self.read_length = 0;\n                self.read_length\n            });",
+         r"cmd\.rs:(\d+): .*outside the tail flow"),
+        ("refuse a use of the abstracted generic receiver other than the declared opaque call", "cmd", "FnCmd",
+         "        4 + CommandCcd::len() as usize + self.scd.scd_len() as usize",
+         "        4 + CommandCcd::len() as usize + self.scd.scd_len() as usize + self.ccd.scd_len as usize",
+         r"cmd\.rs:(\d+): unknown identifier `self`"),
+        ("refuse a struct literal with `..base`", "cmd", "FnCmd",
+         "        Ok(ReadMemChunks {\n            address: self.address,\n            read_length: self.read_length,\n            maximum_read_length,\n        })",
+         "        let base = ReadMemChunks {\n            address: self.address,\n            read_length: self.read_length,\n            maximum_read_length,\n        };\n        Ok(ReadMemChunks {\n            address: self.address,\n            ..base\n        })",
+         r"cmd\.rs:(\d+): struct literal with `\.\.base`"),
+        ("refuse a message local used as a value", "cmd", "FnCmd",
+         "            return Err(Error::InvalidPacket(msg.into()));\n        };\n        let maximum_read_length = ack_len - ack_header_length;",
+         "            return Err(Error::InvalidPacket(msg.into()));\n        };\n        let msg = format!(\"{}\", ack_len);\n        let maximum_read_length = ack_len - ack_header_length - msg.len();",
+         r"cmd\.rs:(\d+): unknown identifier `msg`"),
     ]
     for name, key, group, old, new, pat in refusals:
         repo = fresh_copy()
@@ -255,6 +281,33 @@ def main():
         ("M12 C09-ref1 refactoring, then the new private constant PREFIX_MAGIC_LENGTH 4 -> 8", "cmd", "FnCmd",
          "const PREFIX_MAGIC_LENGTH: usize = 4;", "const PREFIX_MAGIC_LENGTH: usize = 8;", ["gen_ACK_HEADER_LENGTH_agrees", "maximum_read_length_bv"], "C09-ref1"),
     ]
+    # the functions added to FnCmd in the growth round (struct targets, `&mut self`, opaque calls)
+    mutations += [
+        ("M13 ReadMemChunks::next no longer advances the address", "cmd", "FnCmd",
+         "            self.address += self.maximum_read_length as u64;\n", "", ["next_bv"]),
+        ("M14 ReadMemChunks::next `>` -> `>=` (full chunk also when it is the last one)", "cmd", "FnCmd",
+         "if self.read_length as usize > self.maximum_read_length {", "if self.read_length as usize >= self.maximum_read_length {", ["next_bv"]),
+        ("M15 ReadMem::chunks budget check `<=` -> `<`", "cmd", "FnCmd",
+         "if ack_len <= ack_header_length {", "if ack_len < ack_header_length {", ["chunks_bv"]),
+        ("M16 cmd_len counts the magic twice (`4 +` -> `8 +`)", "cmd", "FnCmd",
+         "        4 + CommandCcd::len() as usize + self.scd.scd_len() as usize", "        8 + CommandCcd::len() as usize + self.scd.scd_len() as usize", ["cmd_len_bv"]),
+        ("M17 maximum_ack_len `max` -> `min`", "cmd", "FnCmd",
+         "std::cmp::max(scd_len, Self::MINIMUM_ACK_SCD_LENGTH)", "std::cmp::min(scd_len, Self::MINIMUM_ACK_SCD_LENGTH)", ["maximum_ack_len_bv"]),
+        ("M18 <ReadMem as CommandScd>::scd_len 12 -> 16", "cmd", "FnCmd",
+         "        // Address(8 bytes) + reserved(2bytes) + length(2 bytes)\n        12", "        // Address(8 bytes) + reserved(2bytes) + length(2 bytes)\n        16", ["rm_scd_len_bv"]),
+        ("M19 value-substituted constant MINIMUM_ACK_SCD_LENGTH 4 -> 2", "cmd", "FnCmd",
+         "const MINIMUM_ACK_SCD_LENGTH: u16 = 4;", "const MINIMUM_ACK_SCD_LENGTH: u16 = 2;", ["maximum_ack_len_bv"]),
+        ("M20 <WriteMem as CommandScd>::ack_scd_len 4 -> 8", "cmd", "FnCmd",
+         "        // Reserved(2bytes)+ length written(2bytes);\n        4", "        // Reserved(2bytes)+ length written(2bytes);\n        8", ["wm_ack_scd_len_bv"]),
+        ("M21 inlined helper CommandCcd::len 8 -> 10", "cmd", "FnCmd",
+         "        // flags(2bytes) + command_id(2bytes) + scd_len(2bytes) + request_id(2bytes)\n        8", "        // flags(2bytes) + command_id(2bytes) + scd_len(2bytes) + request_id(2bytes)\n        10", ["header_len_bv", "cmd_len_bv"]),
+        ("M22 ReadMemChunks::next last chunk keeps its length (`self.read_length = 0` dropped)", "cmd", "FnCmd",
+         "            let next_item = ReadMem::new(self.address, self.read_length);\n            self.read_length = 0;", "            let next_item = ReadMem::new(self.address, self.read_length);\n            self.read_length -= self.read_length / 2;", ["next_bv"]),
+        ("M23 C06-ref2 refactoring, then the chunk item is built from the remaining length", "cmd", "FnCmd",
+         "            let next_item = ReadMem::new(self.address, chunk_length);", "            let next_item = ReadMem::new(self.address, self.read_length);", ["next_bv"], "C06-ref2"),
+        ("M24 C10-ref1 refactoring, then the shared helper payload_capacity returns one byte too many", "cmd", "FnCmd",
+         "    Ok(packet_len - overhead)", "    Ok(packet_len - overhead + 1)", ["chunks_bv"], "C10-ref1"),
+    ]
     for m in mutations:
         name, key, group, old, new, want = m[:6]
         repo = fresh_copy()
@@ -309,6 +362,16 @@ def main():
              "            RO => {\n                let (r, _) = rhs.rw();\n                self.keep_if(r)\n            }\n            WO => {\n                let (_, w) = rhs.rw();\n                self.keep_if(w)\n            }"),
         ]),
     ]
+    harmless += [
+        ("H11 refactoring C06-ref2 (named chunk_length / chunk_end, u64::from, format! of a local)", "FnCmd", [("patch", "C06-ref2", None)]),
+        ("H12 refactoring C06-ref3 (usize::from instead of `as usize`)", "FnCmd", [("patch", "C06-ref3", None)]),
+        ("H13 refactoring C07-ref3 (cmd_len through Self::header_len(), usize::from)", "FnCmd", [("patch", "C07-ref3", None)]),
+        ("H14 refactoring C10-ref1 (shared helper payload_capacity with a `&str` message parameter and `?`)", "FnCmd", [("patch", "C10-ref1", None)]),
+        ("H15 next: early `return Some(..)` instead of `else`, state updated before the item is built", "FnCmd", [
+            ("cmd", "        if self.read_length as usize > self.maximum_read_length {\n            let next_item = ReadMem::new(self.address, self.maximum_read_length as u16);\n            self.read_length -= self.maximum_read_length as u16;\n            self.address += self.maximum_read_length as u64;\n            Some(next_item)\n        } else {\n            let next_item = ReadMem::new(self.address, self.read_length);\n            self.read_length = 0;\n            Some(next_item)\n        }",
+             "        let start = self.address;\n        if self.read_length as usize <= self.maximum_read_length {\n            let len = self.read_length;\n            self.read_length = 0;\n            return Some(ReadMem {\n                read_length: len,\n                address: start,\n            });\n        }\n        let step = self.maximum_read_length as u16;\n        self.read_length = self.read_length - step;\n        self.address = start + u64::from(step);\n        Some(ReadMem::new(start, step))"),
+        ]),
+    ]
     for name, group, edits in harmless:
         repo = fresh_copy()
         for key, old, new in edits:
@@ -318,6 +381,13 @@ def main():
                 edit(repo, key, old, new)
         rc, out, lrc, failing, dt = generate_and_prove(repo, group, lp)
         expect(name, rc == 0 and lrc == 0 and not failing, f"rs2lean rc={rc} {out.strip().splitlines()[0][:120] if rc else ''}, tie rc={lrc}, failing={failing}, {dt:.1f}s")
+
+    # ---------------- (iii b) a behaviour-preserving rewrite outside the subset is REFUSED (rc 2, the
+    # check then falls back to tie C), never mistranslated
+    repo = fresh_copy()
+    apply_patch(repo, "C10-ref2")
+    rc, out, lrc, failing, dt = generate_and_prove(repo, "FnCmd", lp)
+    expect("refactoring C10-ref2 (`match u16::try_from(..)` with a guard) is refused, not mistranslated", rc == 2 and "REFUSED FnCmd" in out, f"rc={rc}; {(out.strip().splitlines() or ['<no output>'])[0][:160]}")
 
     # ---------------- (v) the translation computes what rustc computes
     sample_dir = os.path.join(ROOT, "rs2lean", "tests", "sample")
